@@ -951,7 +951,7 @@ func (check typecheck) builtin(name string, n *node, child []*node, ellipsis boo
 		}
 		// Special case append([]byte, "test"...) is allowed.
 		t1 := params[1].Type()
-		if nparams == 2 && ellipsis && t.Elem().Kind() == reflect.Uint8 && t1.TypeOf().Kind() == reflect.String {
+		if nparams == 2 && ellipsis && t.Elem().Kind() == reflect.Uint8 && t1.cat != nilT && t1.TypeOf().Kind() == reflect.String {
 			if t1.untyped {
 				return check.convertUntyped(params[1].nod, check.scope.getType("string"))
 			}
@@ -1174,6 +1174,10 @@ func (check typecheck) argument(p param, ftyp *itype, i, l int, ellipsis bool) e
 	if ellipsis {
 		if i != ftyp.numIn()-1 {
 			return p.nod.cfgErrorf("can only use ... with matching parameter")
+		}
+		if p.Type().cat == nilT {
+			// The variadic parameter is a nil slice.
+			return nil
 		}
 		t := p.Type().TypeOf()
 		if t.Kind() != reflect.Slice || !(valueTOf(t.Elem())).assignableTo(atyp) {
